@@ -101,6 +101,7 @@ struct ArmInstr<'l>
 	instr: Instruction,
 	args_done: usize,
 	args: Vec<Argument<'l>>,
+	placed: bool,
 }
 
 impl<'l> ArmInstr<'l>
@@ -198,7 +199,7 @@ impl<'l> ArmInstr<'l>
 			"YIELD" => Instruction::Yield,
 			_ => return Err(Positioned{line, col, value: InstrErrorKind::NotFound(name.to_owned())}),
 		};
-		Ok(Self{file_name: ctx.curr_file_name(), line, col, addr, instr, args_done: 0, args})
+		Ok(Self{file_name: ctx.curr_file_name(), line, col, addr, instr, args_done: 0, args, placed: false})
 	}
 	
 	fn push_error<E: Error + 'static>(&mut self, ctx: &mut Context, source: E)
@@ -222,6 +223,7 @@ impl<'l> ArmInstr<'l>
 			instr: self.instr,
 			args_done: self.args_done,
 			args: Argument::vec_into_owned(self.args),
+			placed: self.placed,
 		}
 	}
 	
@@ -934,6 +936,16 @@ impl<'l> ArmInstr<'l>
 				}
 				match ctx.active_mut()
 				{
+					Some(active) if !self.placed =>
+					{
+						// the first write of a statement always appends (the cursor saturates at the end of the address space)
+						if let Err(e) = active.write(&tmp[..len])
+						{
+							self.push_error(ctx, AsmError::Write(e));
+							return Err(ErrorLevel::Fatal);
+						}
+						self.placed = true;
+					},
 					Some(active) if self.addr >= active.base_addr() && self.addr <= active.curr_addr() =>
 					{
 						if let Err(e) = active.write_at(self.addr, &tmp[..len])
